@@ -101,7 +101,6 @@ var round13Unresolved = map[string]string{
 	"C02/a": "R10: per-document working state recycled through the pooled builder (three re-extensions, each clean for a different reason)",
 	"C04/a": "R6b: a second, unbuffered way of writing body and footer (no Flush on that path)",
 	"C09/b": "R6/R15: the output file owned by a higher-order helper (`writeSegmentFile(path, fill)`)",
-	"C18/b": "R15b/R7b: an owner type that also owns the buffered and the counting writer stacked on the file (R6 follows it since round 16; C17/b, the owner of the file alone, is a fixture now)",
 	"C20/a": "R6c/R14/R3: small files read into the heap instead of being mapped (a second way of acquiring the bytes)",
 }
 
